@@ -318,8 +318,9 @@ DAY = 86400000
 
 def deletion_shapes(tier):
     out = []
-    nmax = 2 if tier == 'quick' else 3
     for i in range(len(SPECS[tier])):
+        # three rows per deletion on the two-groups-per-room configuration did not finish in 3 hours: two there
+        nmax = 2 if tier == 'quick' or len(SPECS[tier][i][0]['groups']) > 1 else 3
         for nn in range(0, nmax + 1):
             for ne in range(0, nmax + 1 - nn):
                 if nn + ne == 0:
